@@ -79,3 +79,34 @@ func listBases() [][]Op {
 		mk([]string{"rpush", "k1", "a", "a", "b", "a", "a"}, []string{"rpush", "k3", "x", "y"}, []string{"pexpire", "k1", "1000"}),
 	}
 }
+
+// listScripts: aliasing probes. After every command that stores a slice derived from another list
+// (LMOVE, LTRIM, LPOP/RPOP with count, LREM, LSET) both lists are appended to and re-read, so a
+// shared backing array shows up as a change of the list that was not written.
+func listScripts() [][][]string {
+	var out [][][]string
+	shrink := [][][]string{
+		{{"rpush", "k1", "a", "b", "c", "d"}, {"rpop", "k1", "1"}},
+		{{"rpush", "k1", "a", "b", "c", "d"}, {"lpop", "k1", "2"}},
+		{{"rpush", "k1", "a", "b", "c", "d", "e"}, {"ltrim", "k1", "0", "2"}},
+		{{"rpush", "k1", "a", "b", "c", "d"}, {"lrem", "k1", "1", "d"}},
+		{{"rpush", "k1", "a", "b", "c"}},
+	}
+	for _, pre := range shrink {
+		for _, wf := range []string{"left", "right"} {
+			for _, wt := range []string{"left", "right"} {
+				for _, dstPre := range [][][]string{{{"rpush", "k2", "x"}}, {{"rpush", "k2", "x", "y", "z"}, {"rpop", "k2", "2"}}} {
+					var sc [][]string
+					sc = append(sc, pre...)
+					sc = append(sc, dstPre...)
+					sc = append(sc, []string{"lmove", "k1", "k2", wf, wt},
+						[]string{"rpush", "k1", "Z"}, []string{"lrange", "k2", "0", "10"}, []string{"lpush", "k1", "Y"}, []string{"rpush", "k2", "Q"},
+						[]string{"lset", "k1", "0", "W"}, []string{"lrange", "k2", "0", "10"}, []string{"lmove", "k2", "k1", wt, wf}, []string{"rpush", "k2", "R"},
+						[]string{"lset", "k2", "0", "V"}, []string{"llen", "k1"}, []string{"rename", "k1", "k3"}, []string{"rpush", "k3", "T"}, []string{"llen", "k2"})
+					out = append(out, sc)
+				}
+			}
+		}
+	}
+	return out
+}
